@@ -579,7 +579,7 @@ func lidxFuncs(r *Report, p *Prog, arch string, names []string) {
 					}
 					fs := append(append([]Fact(nil), facts...), env.Extra...)
 					for k := range need.T {
-						if strings.HasSuffix(k, ".tagSize") {
+						if isTagSizeTerm(p, k) {
 							fs = append(fs, Fact{E: L(k).Sub(linConst(12))}, Fact{E: linConst(16).Sub(L(k))})
 						}
 					}
